@@ -16,7 +16,9 @@ from vlib.env import ToolError, SEED
 
 PAIRS = [("v2c", "v3-md5-des"), ("v1", "v3-sha1-aes"), ("v3-noauth", "v2c"), ("v3-md5", "v1"), ("v3-md5-aes", "v3-sha1-des"), ("v2c", "v2c"),
          # sessions of one process that use the same password bytes under different digests / ciphers
-         ("v3-md5-samepw", "v3-sha1-samepw"), ("v3-sha1-des-samepw", "v3-md5-aes-samepw")]
+         ("v3-md5-samepw", "v3-sha1-samepw"), ("v3-sha1-des-samepw", "v3-md5-aes-samepw"),
+         # users whose auth and privacy keys are given in different forms (password / master / localized)
+         ("v3-md5-des-pw+master", "v3-sha1-aes-master+pw"), ("v3-md5-aes-pw+localized", "v3-sha1-des-localized+pw")]
 BIG = ["1.3.6.1.4.1.%d.%d.%d" % (100000 + i, 200000 + i, 300000 + i) for i in range(420)]
 
 
